@@ -10,7 +10,7 @@ import z3
 from harness.common import *
 from harness.decoders import decode_entry_items
 
-NAMES = {'vs': 'vsMainÄ', 'fs': 'fs_main', 'cs': 'cs_Main', 'extra': 'extra9'}
+NAMES = {'vs': 'vs_größeÄ', 'fs': 'fs_lumière', 'cs': 'cs_Main', 'extra': 'extra9ß'}
 NMEMBERS = 4
 
 
